@@ -38,7 +38,14 @@ TECHNIQUE = (
     "for all four probe lengths, under-length requests) do not restart the timer.  Several non-default sessions are scanned in one "
     "run, mostly with --reset (ECUReset + wait for the ECU between the sessions, which stops and restarts the cyclic tester present), "
     "with scanner response timeout / tester-present interval / S3 chosen so that during the probes of a silent service id only the "
-    "cyclic tester present keeps the scanned session alive; every later probe must still reach the ECU in the claimed session"
+    "cyclic tester present keeps the scanned session alive; every later probe must still reach the ECU in the claimed session.  "
+    "A few service scans per shard are given --db naming a database that an earlier run against the same target left behind (real "
+    "DBHandler on a sqlite file in the scratch directory, real event loop): gallia's own session scan of the same ECU, or a scan run "
+    "holding the session_transition rows such a scan records (per session the sessions to enter before it, from the default session "
+    "on); the session list holds sessions the ECU refuses from the session the scan has got to (reachable only through an "
+    "intermediate session, or a first-level session asked for from another one).  Session changes directly followed by a further "
+    "session change count as session handling on the way; findings may only be reported for a session the ECU confirmed entering, "
+    "and every probe counted for it must have reached the ECU in that session"
 )
 LEVEL_TEXT = (
     "Exploration: seeded virtual ECUs (p_session 0.3..1, p_service 0.1..0.6, p_identifier 0.05..0.4, with and without "
@@ -51,7 +58,9 @@ LEVEL_TEXT = (
     "no answer), with and without drop-outs; unanswered / garbled / for ever responsePending session changes in the middle of the session list, garbled replies "
     "to the shorter probe lengths of a service, never-answered and garbled identifiers inside the scanned range; ECUs with an S3 session timer "
     "(response timeout + tester-present interval + 0.5 s < S3 < 4 response timeouts) x 2..4 non-default sessions per run x reset on/off x "
-    "service ids silent for every probe length, scanned through run() with the cyclic tester present.  Held = on every generated scan each claim of the scanner agrees with the ECU-side log."
+    "service ids silent for every probe length, scanned through run() with the cyclic tester present; pre-existing databases with the ECU's "
+    "session transitions (left by a real session scan / written as such a scan records them) x session lists with sessions not enterable from the "
+    "session scanned before x skip maps x response ids x check-session x main()/run().  Held = on every generated scan each claim of the scanner agrees with the ECU-side log."
 )
 LEVEL_NOTE = (
     "Trusted: InProcessTransport in vf/ecu_models.py, the window/probe classification of the ECU-side log in this file, gallia's "
@@ -60,7 +69,8 @@ LEVEL_NOTE = (
 RULE = (
     "cases = (server seed, randomness parameters, behaviour switches, scanner kind, session list, skip map, option flags, identifier "
     "range, scanned service, payload, check-session interval, drop-out / loss positions, minimum-length map of the ECU, sessions without a readable "
-    "session identifier, faulty session changes (incl. the interval of a never-ending responsePending chain), garbled probe lengths, never-answered / garbled identifiers, run mode, S3 time / response timeout / tester-present interval of S3 ECUs); non-trivial = the ECU answers at "
+    "session identifier, faulty session changes (incl. the interval of a never-ending responsePending chain), garbled probe lengths, never-answered / garbled identifiers, run mode, S3 time / response timeout / tester-present interval of S3 ECUs, kind and depth of the "
+    "earlier run whose database the scan is given); non-trivial = the ECU answers at "
     "least one probe with something else than serviceNotSupported (services) resp. at least one identifier positively or the scan "
     "covers more than one session (identifiers); distinct = distinct case tuples; distinct_traces = distinct ECU-side logs"
 )
@@ -90,6 +100,12 @@ ASSUMPTIONS = [
     "hold up the cyclic tester present of a scanner with these options) - shorter S3 times, which no tester with these options could serve, are not generated; these scans "
     "run without injected drop-outs, session-read faults and session-change faults; an S3 expiry is not marked in the ECU-side log and excuses nothing: a probe that reaches "
     "the ECU in another session than the claimed one is judged by the same rule as everywhere else; ECUReset with the configured reset type is part of these ECU models in every session",
+    "scans that are given a database: the earlier run was against the same target and the same, unchanged ECU model, so every stored path is "
+    "one the ECU accepts; these ECUs answer every request, the scans run without drop-outs, session faults, S3 timer and --reset; a session "
+    "change that is directly followed by another session change is session handling on the way (it opens no scan window and is not held "
+    "against the session list; a refused one counts as a request only if it names a listed session); whether a refused session is retried "
+    "through stored transitions at all is not demanded (a refused session is legitimately not scanned) - that it happens is a reach "
+    "requirement of the run, so a tree that never completes such a walk cannot be 'held'",
     "a skip expression that the option parser reads differently from the documented grammar is reported as such AND the scan is still judged against the map "
     "the expression denotes (what the skip option names), so a wrongly widened or narrowed skip shows up as not-probed / probed-excluded service ids or identifiers",
 ]
@@ -117,8 +133,8 @@ PARAMS: list[dict[str, Any]] = [
 
 def shards(tier: str, seed: int) -> list[dict[str, Any]]:
     if tier == "quick":
-        return [{"kind": "services", "n": 150, "part": i} for i in range(8)] + [{"kind": "identifiers", "n": 100, "part": i} for i in range(8)]
-    return [{"kind": "services", "n": 1800, "part": i} for i in range(16)] + [{"kind": "identifiers", "n": 1100, "part": i} for i in range(16)]
+        return [{"kind": "services", "n": 150, "part": i, "db": 2} for i in range(8)] + [{"kind": "identifiers", "n": 100, "part": i} for i in range(8)]
+    return [{"kind": "services", "n": 1800, "part": i, "db": 8} for i in range(16)] + [{"kind": "identifiers", "n": 1100, "part": i} for i in range(16)]
 
 
 def required_reach(tier: str) -> dict[str, int]:
@@ -163,6 +179,12 @@ def required_reach(tier: str) -> dict[str, int]:
         "services.s3-ecu": 40, "services.s3-ecu.non-default-session-scanned": 80, "services.s3-ecu.session-entered-after-reset-and-wait": 40,
         "services.s3-ecu.sid-silent-for-all-lengths": 100, "services.s3-ecu.kept-alive-by-tester-present-only": 60,
         "services.s3-ecu.kept-alive-by-tester-present-only.after-reset-and-wait": 30,
+        # service scans that use a database an earlier run left behind (session transitions written by a real session scan / the rows
+        # such a scan writes): sessions of the list that the ECU refuses from the session it is in and then enters through the stored
+        # path (through the default session only / through a further intermediate session), and are scanned after that
+        "services.db.scans": 12, "#services.db.history.": 2, "services.db.session-entered-via-stored-path": 12,
+        "#services.db.session-entered-via-stored-path.": 2, "services.db.session-entered-via-stored-path.through-intermediate-session": 4,
+        "services.db.session-scanned-after-stored-path": 12,
     }
 
 
@@ -495,11 +517,20 @@ class Window:
         self.entries: list[tuple[int, int, bytes, bytes | None, bool]] = []  # (log index, session before, request, reply, delivered)
         self.recover_refused = False
         self.recovered = 0
+        # database in use (split_windows(walks=True)): the listed session whose refused change request began the run of session
+        # changes that ended with the one opening this window; steps = sessions of the accepted changes in between
+        self.attempt: int | None = None
+        self.steps: list[int] = []
 
 
-def split_windows(log: list[Any], lost: set[int], sessions_given: bool) -> tuple[list[Window], list[tuple[int, bool]], list[tuple[int, bytes]]]:
+def split_windows(log: list[Any], lost: set[int], sessions_given: bool, walks: bool = False,
+                  listed: set[int] | None = None) -> tuple[list[Window], list[tuple[int, bool]], list[tuple[int, bytes]]]:
     """ECU-side log -> scan windows: a window opens with a positive reply to '10 S' and lasts until a DiagnosticSessionControl
     request for another session, an ECUReset request or the end.  Without --sessions the whole log is one window.
+    walks (the scan uses a database with stored session transitions): session changes that are directly followed by a further
+    session change are session handling on the way (a stored path being walked), not scans: an accepted one opens no window and
+    is not held against the session list, a refused / unanswered one counts as a request only if it names a session of the list
+    (`listed`).  The window a run of session changes ends with remembers how it was reached (Window.attempt / Window.steps).
     Returns (windows, [(requested session, entered)], requests outside any window)."""
     wins: list[Window] = []
     asked: list[tuple[int, bool]] = []
@@ -508,6 +539,12 @@ def split_windows(log: list[Any], lost: set[int], sessions_given: bool) -> tuple
     if not sessions_given:
         cur = Window(None)
         wins.append(cur)
+
+    def is_dsc(j: int) -> bool:
+        return 0 <= j < len(log) and len(log[j][1]) == 2 and log[j][1][0] == 0x10 and log[j][1][1] != 0
+
+    attempt: int | None = None
+    steps: list[int] = []
     for i, (before, q, r, after) in enumerate(log):
         delivered = r is not None and i not in lost
         if sessions_given and len(q) == 2 and q[0] == 0x10 and q[1] != 0:
@@ -521,9 +558,22 @@ def split_windows(log: list[Any], lost: set[int], sessions_given: bool) -> tuple
                 cur.entries.append((i, before, q, r, delivered))
                 continue
             cur = None
+            if walks:
+                if not is_dsc(i - 1):
+                    attempt, steps = None, []  # a new run of session changes begins
+                if is_dsc(i + 1):
+                    # on the way: another session change follows at once
+                    if positive:
+                        steps.append(s)
+                    elif s in (listed or set()):
+                        asked.append((s, False))
+                        if attempt is None and not steps:
+                            attempt = s
+                    continue
             asked.append((s, positive))
             if positive:
                 cur = Window(s)
+                cur.attempt, cur.steps = (attempt, list(steps)) if walks else (None, [])
                 wins.append(cur)
             continue
         if sessions_given and len(q) == 2 and q[0] == 0x11 and q[1] != 0:
@@ -759,6 +809,142 @@ def gen_services_case(rng: Any) -> dict[str, Any]:
     return case
 
 
+# ---- service scans that use a database an earlier run left behind ------------------------------------------------------
+DB_TIMEOUT = 0.2  # UDS timeout of DB-backed scans (real seconds; these ECU models answer every request at once)
+DB_WALL = 200.0  # real-time watchdog for one DB-backed history (earlier run + service scan; seconds of work, mostly fsync)
+_db_seq = 0
+
+
+def stored_paths(trans: dict[int, list[int]]) -> dict[int, list[int]]:
+    """{session: the sessions to enter one after the other, from the default session on, before the session itself can be requested};
+    breadth first over the transitions of the ECU model, i.e. the shortest way (for the default session and its direct successors [1])"""
+    paths: dict[int, list[int]] = {1: [1]}
+    level = [1]
+    while level:
+        nxt = []
+        for a in level:
+            way = paths[a] + [a] if a != 1 else [1]
+            for b in trans.get(a, []):
+                if b not in paths:
+                    paths[b] = way
+                    nxt.append(b)
+        level = nxt
+    return paths
+
+
+def needs_path(trans: dict[int, list[int]], sessions: list[int]) -> list[tuple[int, int]]:
+    """[(session of the list, session the ECU is in when it is requested)] for the sessions of the list that the ECU model refuses
+    from where the scan has got to (a refused session leaves the ECU where it is unless a stored path is walked; with one, the
+    scan goes on from that session) and that can be reached from the default session at all"""
+    out = []
+    cur = 1
+    reach = stored_paths(trans)
+    for s in sessions:
+        if s in trans.get(cur, []):
+            cur = s
+        elif s in reach:
+            out.append((s, cur))
+            cur = s
+    return out
+
+
+def gen_db_case(rng: Any, history: str | None = None) -> dict[str, Any]:
+    """A service scan with --db naming a database that an earlier run against the same target left behind: it holds the session
+    transitions of the ECU (written by gallia's own session scan, or the rows such a scan writes: for every session the sessions to
+    go through from the default session).  The session list holds at least one session that the ECU refuses from the session the
+    scan has got to (a session only reachable through an intermediate session, or a first-level session asked for from another
+    one); sessions, skip map, response ids, check-session and run mode vary as everywhere.  These ECUs answer every request
+    (real event loop: the database works from a thread of its own)."""
+    want_deep = rng.random() < 0.65
+    best = None
+    for _ in range(16):
+        case = gen_server_case(rng, silence_ok=False)
+        if "optional_sessions" not in case["rp"] or case["rp"]["p_session"] < 0.5:
+            case["rp"]["p_session"] = rng.choice([0.8, 1.0])
+            case["rp"].setdefault("optional_sessions", [2, 3, 4, 0x40, 0x60])
+        srv = make_server(case)
+        trans = transitions_of(srv)
+        paths = stored_paths(trans)
+        deep = sorted(x for x, way in paths.items() if len(way) > 1)
+        if len(paths) < 3:
+            continue
+        if best is None or (deep and not best[2]):
+            best = (case, trans, deep)
+        if deep or not want_deep:
+            break
+    assert best is not None, "no ECU model with two non-default sessions in 16 draws"
+    case, trans, deep = best
+    srv = make_server(case)
+    have = sorted(stored_paths(trans))
+    sessions: list[int] = []
+    for _ in range(40):
+        sessions = rng.sample(have, rng.randint(2, min(4, len(have))))
+        if deep and want_deep and not set(deep) & set(sessions):
+            sessions[rng.randrange(len(sessions))] = rng.choice(deep)
+        if rng.random() < 0.3:
+            extra = rng.choice([rng.randint(2, 0x7E), 0x7F])  # a session the ECU does not have at all (no stored path either)
+            if extra not in trans:
+                sessions.insert(rng.randint(0, len(sessions)), extra)
+        need = needs_path(trans, sessions)
+        if need and (not (deep and want_deep) or any(s in deep for s, _ in need)):
+            break
+    skip: dict[int, list[int] | None] = {}
+    if rng.random() < 0.4:
+        t = rng.choice(sessions)
+        a = rng.choice([0, 0x10, 0x22, 0x27, 0x3E, 0xBF, rng.randrange(256)])
+        skip[t] = list(range(a, min(256, a + rng.choice([1, 4, 16, 64]))))
+    check = rng.random() < 0.3
+    history = history or rng.choice(["sessions-scan", "written", "written", "written"])
+    depth = max(len(w) for w in stored_paths(trans).values()) + 1
+    case.update({
+        "kind": "services", "sessions_opt": list(sessions), "sessions": list(sessions), "check_session": check,
+        "scan_response_ids": rng.random() < 0.25, "reset": None, "skip": {str(k): v for k, v in skip.items()},
+        "skip_expr": render_skip(rng, skip) if skip else [], "full": rng.random() < 0.3, "dropouts": [], "mute": {},
+        "session_read": {}, "dsc_fault": {},
+        "db": {"history": history, "depth": max(2, min(5, depth + rng.choice([0, 0, 1])))},
+    })
+    case["garble"] = gen_garble(rng, srv, {}) if rng.random() < 0.2 else {}
+    return case
+
+
+async def leave_history(case: dict[str, Any], path: Any) -> None:
+    """the earlier run against the same target that left the database behind:
+    'sessions-scan'  gallia's own session scan (scan_run, every request, and the session_transition rows it finds) against the same ECU
+    'written'        a scan run whose session_transition rows are what such a scan records for this ECU: one row per session the ECU
+                     can be brought into, holding the sessions to enter before it, from the default session on"""
+    from vf import dbharness as dh
+    from vf import ecu_models as em
+
+    srv = make_server(case)
+    if case["db"]["history"] == "sessions-scan":
+        from gallia.commands.scan.uds.sessions import SessionsScanner
+
+        tr = em.InProcessTransport(srv, budget=200_000)
+        sc = em.make_scanner(SessionsScanner, depth=case["db"]["depth"], db=path, timeout=DB_TIMEOUT)
+        out = await em.run_scanner(sc, tr, False, db=True)
+        if out["error"] is not None or out["exit"]:
+            raise RuntimeError(f"the earlier session scan did not complete: {out}")  # harness error (the session scan itself is C09)
+        return
+    h = await dh.open_handler(path, em.TARGET, script="vf.c10.history")
+    try:
+        for dest, way in sorted(stored_paths(transitions_of(srv)).items()):
+            await dh.guarded(h.insert_session_transition(dest, list(way)), "insert_session_transition")
+    except BaseException:
+        await dh.force_close(h)
+        raise
+    await dh.close_handler(h)
+
+
+async def db_history(case: dict[str, Any], path: Any) -> dict[str, Any]:
+    from vf import ecu_models as em
+
+    await leave_history(case, path)
+    stored = em.read_session_transitions(path)
+    out = await scan_services(case, db=path)
+    out["stored"] = [(dest, steps) for _, dest, steps in stored]
+    return out
+
+
 def gen_dsc_fault(rng: Any, srv: Any) -> tuple[list[int], dict[str, str]] | None:
     """an explicit session list with a session in its MIDDLE whose DiagnosticSessionControl request the ECU never answers, or answers
     with a reply that is no answer to it (the client's session change raises), while the sessions after it can be entered in the given
@@ -819,7 +1005,8 @@ def mute_map(case: dict[str, Any]) -> dict[tuple[int, int], int]:
     return {(int(s), int(sid)): int(m) for s, d in (case.get("mute") or {}).items() for sid, m in d.items()}
 
 
-async def scan_services(case: dict[str, Any]) -> dict[str, Any]:
+async def scan_services(case: dict[str, Any], db: Any = None) -> dict[str, Any]:
+    """db = path of the sqlite file the scan is given with --db (real event loop only); None = no database (virtual time)"""
     from gallia.commands.scan.uds.services import ServicesScanner
     from vf import ecu_models as em
 
@@ -835,8 +1022,10 @@ async def scan_services(case: dict[str, Any]) -> dict[str, Any]:
                             "reset": case["reset"], "skip": list(case["skip_expr"]) if case["skip_expr"] else {}}
     if s3:
         opts.update({"timeout": s3["scanner_timeout"], "tester_present_interval": s3["tp_interval"]})
+    if db is not None:
+        opts.update({"db": db, "timeout": DB_TIMEOUT})
     sc = em.make_scanner(ServicesScanner, **opts)
-    out = await em.run_scanner(sc, tr, case["full"])
+    out = await em.run_scanner(sc, tr, case["full"], db=db is not None)
     out.update({"result": list(sc.result), "log": tr.log, "lost": set(tr.lost), "records": list(cap.results), "problems": list(cap.problems),
                 "cfg_sessions": sc.config.sessions, "cfg_skip": sc.config.skip, "model": model_of(srv), "n_dropouts": tr.n_dropouts,
                 "pending_sent": list(tr.pending_sent)})
@@ -872,13 +1061,15 @@ def is_zero_probe(q: bytes) -> bool:
 def check_services(ctx: Any, case: dict[str, Any]) -> None:
     from vf import ecu_models as em
 
+    global _db_seq
+
     skip: dict[int, list[int] | None] = {int(k): v for k, v in case["skip"].items()}
     sessions = list(case["sessions"])
     given = case["sessions_opt"] is not None
     ident = ("services", case["server_seed"], sorted(case["rp"].items()), case["behavior_off"], case["sessions_opt"], case["check_session"],
              case["scan_response_ids"], case["reset"], case["skip_expr"], case["full"], case["dropouts"], sorted(mute_map(case).items()),
              sorted((case.get("session_read") or {}).items()), sorted((case.get("dsc_fault") or {}).items()), repr(sorted((case.get("garble") or {}).items())),
-             repr(sorted((case.get("s3") or {}).items())), case.get("pending_interval"))
+             repr(sorted((case.get("s3") or {}).items())), case.get("pending_interval"), repr(sorted((case.get("db") or {}).items())))
     w: dict[str, Any] = {k: case[k] for k in ("kind", "server_seed", "rp", "behavior_off", "sessions_opt", "sessions", "check_session", "scan_response_ids",
                                             "reset", "skip", "skip_expr", "full", "dropouts")}
     w["mute"] = case.get("mute") or {}
@@ -893,12 +1084,32 @@ def check_services(ctx: Any, case: dict[str, Any]) -> None:
     mute = mute_map(case)
     if mute:
         ctx.reach("services.min-length-ecu")
-    try:
-        out = vtime.run(scan_services(case))
-    except vtime.Deadlock:
-        ctx.case(ident)
-        ctx.violation("services/blocks-forever", "the scan can never complete (nothing scheduled, nothing readable)", w)
-        return
+    db = case.get("db") or None
+    if db:
+        # the scan is given a database an earlier run left behind (real event loop, sqlite file in the scratch directory)
+        from vf import dbharness as dh
+
+        w["db"] = db
+        _db_seq += 1
+        path = ctx.mkscratch() / f"c10-{_db_seq}.sqlite"
+        em.remove_db(path)
+        try:
+            out = em.run_real(db_history(case, path), DB_WALL)
+        except TimeoutError:
+            dh.stop_leaked_connections()
+            ctx.case(ident)
+            ctx.violation("services/db/no-termination/wall-clock", f"an earlier run plus a service scan on its database (seconds of work) did not finish within {DB_WALL:.0f} s", w)
+            return
+        finally:
+            em.remove_db(path)
+        w["stored_session_transitions"] = out["stored"][:12]
+    else:
+        try:
+            out = vtime.run(scan_services(case))
+        except vtime.Deadlock:
+            ctx.case(ident)
+            ctx.violation("services/blocks-forever", "the scan can never complete (nothing scheduled, nothing readable)", w)
+            return
     log, model = out["log"], out["model"]
     ctx.trace([(b, q, r) for b, q, r, _ in log])
     ctx.reach("services.scans")
@@ -932,8 +1143,30 @@ def check_services(ctx: Any, case: dict[str, Any]) -> None:
     for s, sid in out["result"]:
         result.setdefault(s, set()).add(sid)
     claimed = [int(m.group(1), 16) for _, msg in out["records"] if (m := re.match(r"^findings in session 0x([0-9A-Fa-f]{2}):$", msg))]
-    wins, asked, outside = split_windows(log, out["lost"], given)
+    wins, asked, outside = split_windows(log, out["lost"], given, walks=bool(db), listed=set(sessions))
     any_found = False
+    if db:
+        ctx.reach("services.db.scans")
+        ctx.reach(f"services.db.history.{db['history']}")
+        for wd in wins:
+            if wd.attempt is None:
+                continue
+            if wd.attempt == wd.session:
+                # refused from where the ECU was, then entered after the sessions of the stored path had been entered one by one
+                kind = "through-intermediate-session" if any(x != 1 for x in wd.steps) else "through-default-session"
+                ctx.reach("services.db.session-entered-via-stored-path")
+                ctx.reach(f"services.db.session-entered-via-stored-path.{kind}")
+                if any(is_zero_probe(q) and before == wd.session for _, before, q, _, _ in wd.entries):
+                    ctx.reach("services.db.session-scanned-after-stored-path")
+            elif wd.attempt in claimed and wd.attempt not in [x.session for x in wins]:
+                # the change to a listed session was refused, other sessions were entered instead (the way there), the session itself
+                # never: what is probed from here on reaches the ECU in the session entered last, and is reported for the refused one
+                first = wd.entries[0][0] if wd.entries else len(log)
+                n_probes = sum(1 for _, before, q, _, _ in wd.entries if is_zero_probe(q) and before != wd.attempt)
+                ctx.violation("services/probe-in-wrong-session/stored-path-not-completed", "findings are reported for a session whose change request the ECU refused; after it the "
+                              "scanner entered other sessions (stored session transitions) but never the session itself, and probed in the session it ended up in",
+                              {**w, "session": wd.attempt, "ecu_session": wd.session, "sessions_entered_on_the_way": wd.steps, "probes_in_other_session": n_probes,
+                               "log": em.hexlog(log[max(0, first - 8) : first + 3])})
 
     def expected_sids(s: int | None) -> list[int]:
         e = []
@@ -1571,6 +1804,13 @@ def run(ctx: Any, params: dict[str, Any]) -> None:
 
     em.capture_logging()
     rng = ctx.rng
+    # DB-backed service scans first (real time, few): a database an earlier run left behind in the scratch directory
+    for i in range(params.get("db", 0)):
+        if ctx.out_of_time():
+            break
+        case = gen_db_case(rng, "sessions-scan" if (i + params.get("part", 0)) % 4 == 0 else "written")  # (an earlier session scan costs about as much as the service scan)
+        check_services(ctx, case)
+        ctx.sample({k: case[k] for k in ("kind", "server_seed", "rp", "sessions_opt", "skip_expr", "check_session", "scan_response_ids", "full", "db")})
     for i in range(params["n"]):
         if ctx.out_of_time():
             break
